@@ -474,6 +474,9 @@ def gen_config(rng, system, path=None) -> dict[str, Any]:
     path = path or rng.pick(["assembly", "assembly", "MDAJacobi", "MDAGaussSeidel", "MDAChain", "MDAChainLin", "MDANewtonRaphson"])
     if path == "MDANewtonRaphson" and not strongly_coupled_only(system):
         path = rng.pick(["MDAJacobi", "MDAGaussSeidel", "MDAChain"])
+    if path == "MDAChainLin" and all_states(system):
+        # the chain rule of MDOChain does not know the residual/state convention (C09's domain): out of scope
+        path = "MDAChain"
     mt = rng.pick(MTYPES)
     lu = mt == "matrix" and rng.chance(0.3)
     return {
@@ -503,6 +506,10 @@ def build_disciplines(system, kinds=None):
 def _to_rows(m) -> list[list[float]]:
     if hasattr(m, "toarray"):
         m = m.toarray()
+    elif hasattr(m, "matvec") and not isinstance(m, np.ndarray):
+        # a (composed) JacobianOperator returned by the chain rule: apply it to the canonical basis
+        nr, nc = m.shape
+        m = np.column_stack([np.asarray(m.matvec(e), dtype=float).ravel() for e in np.eye(nc)]) if nc else np.zeros((nr, 0))
     a = np.asarray(m, dtype=float)
     if a.ndim != 2:
         raise ValueError(f"Jacobian block is not 2-D: shape {a.shape}")
@@ -880,6 +887,8 @@ def _valid_case(case) -> bool:
             return False
     if case["path"] == "MDANewtonRaphson" and not strongly_coupled_only(system):
         return False
+    if case["path"] == "MDAChainLin" and all_states(system):
+        return False
     return len(case["kinds"]) == len(system["discs"]) and bool(case["steps"])
 
 
@@ -958,3 +967,444 @@ def shrink_case(case, key, budget=60) -> dict[str, Any]:
                 cur, progress = c, True
                 break
     return cur
+
+
+# --------------------------------------------------------------------------- protocol lines (Lean model)
+
+
+def _names(l) -> str:
+    return ",".join(l) if l else "[]"
+
+
+def _rows(m) -> str:
+    return ";".join(",".join(rat(v) for v in row) for row in m) if m else "[]"
+
+
+def _sizes_field(system) -> str:
+    return "S=" + ",".join(f"{n}:{k}" for n, k in system["sizes"].items())
+
+
+def _blocks_fields(system) -> list[str]:
+    out = []
+    for d in system["discs"]:
+        st = d.get("states", {})
+        for o in [*d["outs"], *st.values(), *st]:
+            for i in disc_inputs(d):
+                b = block(system, o, i)
+                if b is not None:
+                    out.append(f"B={o}:{i}:{_rows(b)}")
+    return out
+
+
+def _discs_field(system) -> str:
+    parts = []
+    for d in system["discs"]:
+        st = d.get("states", {})
+        parts.append(f"{d['name']}:{_names(disc_inputs(d))}:{_names([*d['outs'], *st.values(), *st])}")
+    return "D=" + "|".join(parts)
+
+
+def _res_field(system) -> str:
+    st = all_states(system)
+    return "R=" + (",".join(f"{r}:{w}" for r, w in st.items()) if st else "[]")
+
+
+def td_line(system, step, mode=None) -> str:
+    return " ".join([
+        "td",
+        mode or step["mode"],
+        "F=" + _names(step["functions"]),
+        "V=" + _names(step["variables"]),
+        "Y=auto",
+        _res_field(system),
+        _sizes_field(system),
+        _discs_field(system),
+        *_blocks_fields(system),
+    ])
+
+
+def asm_lines(system, a) -> list[str]:
+    common_f = ["F=" + _names(a["functions"]), "V=" + _names(a["variables"]), _sizes_field(system)]
+    flag = "1" if a["is_residual"] else "0"
+    bl = _blocks_fields(system)
+    return [
+        " ".join(["asm", flag, *common_f, *bl]),
+        " ".join(["opv", flag, *common_f, "X=" + ",".join(a["x"]), *bl]),
+        " ".join(["opr", flag, *common_f, "X=" + ",".join(a["xt"]), *bl]),
+    ]
+
+
+def parse_td(ans: str) -> dict[tuple[str, str], list[list[Fraction]]] | None:
+    if ans.startswith("E:") or ans.startswith("bad"):
+        return None
+    out = {}
+    for tok in ans.split(" "):
+        key, rows = tok.split("=")
+        f, x = key.split(":")
+        out[(f, x)] = [] if rows == "[]" else [[Fraction(v) for v in r.split(",")] for r in rows.split(";")]
+    return out
+
+
+def parse_mat(ans: str):
+    if ans == "[]":
+        return []
+    return [[Fraction(v) for v in r.split(",")] for r in ans.split(";")]
+
+
+# --------------------------------------------------------------------------- assembly stream (exact)
+
+
+def gen_asm(rng, system) -> dict[str, Any]:
+    prod = producers(system)
+    used = []
+    for d in system["discs"]:
+        for i in disc_inputs(d):
+            if i not in used:
+                used.append(i)
+    fs = rng.sample(list(prod), min(len(prod), rng.pick([1, 2, 3, 4])))
+    pool = used + [f for f in fs if f not in used]
+    vs = rng.sample(pool, min(len(pool), rng.pick([1, 2, 3, 4])))
+    if rng.chance(0.5) and fs and fs[0] not in vs and fs[0] in pool:
+        vs[rng.randrange(len(vs))] = fs[0]  # make a residual diagonal block likely
+    nr = sum(system["sizes"][f] for f in fs)
+    nc = sum(system["sizes"][v] for v in vs)
+    return {
+        "functions": fs,
+        "variables": vs,
+        "is_residual": rng.chance(0.6),
+        "x": [rat(rng.dyadic(-2, 2, 2)) for _ in range(nc)],
+        "xt": [rat(rng.dyadic(-2, 2, 2)) for _ in range(nr)],
+    }
+
+
+def run_asm(system, kinds, a) -> dict[str, Any]:
+    sess = AssemblySession(system, kinds)
+    obs = sess.assemble(a["functions"], a["variables"], a["is_residual"])
+    if "exc" in obs:
+        return obs
+    from gemseo.core.derivatives.jacobian_assembly import JacobianAssembly
+
+    try:
+        op = sess.assembly.assemble_jacobian(
+            a["functions"], a["variables"], is_residual=a["is_residual"],
+            jacobian_type=JacobianAssembly.JacobianType.LINEAR_OPERATOR,
+        )
+        obs["opv"] = np.asarray(op.matvec(np.array([float(Fraction(v)) for v in a["x"]]))).ravel().tolist()
+        obs["opr"] = np.asarray(op.rmatvec(np.array([float(Fraction(v)) for v in a["xt"]]))).ravel().tolist()
+        mt = sess.assembly.assemble_jacobian(a["functions"], a["variables"], is_residual=a["is_residual"])
+        obs["matT"] = np.asarray(mt.T.toarray(), dtype=float).tolist()
+    except Exception as e:  # noqa: BLE001
+        return {"exc": common.exc_class(e), "msg": repr(e)[:300]}
+    return obs
+
+
+def _exact_eq(got, want) -> bool:
+    try:
+        if len(got) != len(want):
+            return False
+        for rg, rw in zip(got, want):
+            if len(rg) != len(rw):
+                return False
+            for g, w in zip(rg, rw):
+                if not (math.isfinite(g) and F(g) == w):
+                    return False
+        return True
+    except (TypeError, ValueError):
+        return False
+
+
+def asm_oracle(system, a, obs) -> list[tuple[str, str]]:
+    """Block placement of the property text: exact comparison with `assemble_exact`."""
+    tag = "residual" if a["is_residual"] else "plain"
+    if "exc" in obs:
+        return [(f"asm-raises:{obs['exc']}:{tag}", f"assemble_jacobian raised {obs.get('msg')}")]
+    want = assemble_exact(system, a["functions"], a["variables"], a["is_residual"])
+    nr, nc = len(want), (len(want[0]) if want else 0)
+    bad = []
+    if not _exact_eq(obs["matrix"], want):
+        bad.append((f"asm-matrix:{tag}", f"assembled matrix {obs['matrix']} != exact {[[str(v) for v in r] for r in want]}"))
+    if not _exact_eq(obs["matvec"], want):
+        bad.append((f"asm-operator-matvec:{tag}", f"operator (matvec on the basis) {obs['matvec']} != exact {[[str(v) for v in r] for r in want]}"))
+    if not _exact_eq(obs["rmatvec"], want):
+        bad.append((f"asm-operator-rmatvec:{tag}", f"operator (rmatvec on the basis) {obs['rmatvec']} != exact {[[str(v) for v in r] for r in want]}"))
+    wt = [[want[i][j] for i in range(nr)] for j in range(nc)]
+    if nr and nc and not _exact_eq(obs["matT"], wt):
+        bad.append((f"asm-transpose:{tag}", "transpose of the assembled matrix is not the exact transpose"))
+    return bad
+
+
+def asm_model_diff(a, obs, answers) -> str | None:
+    """Exact comparison of the observation with the three model answers (asm, opv, opr)."""
+    if "exc" in obs:
+        return f"implementation raised {obs['exc']}, model answered {answers[0][:80]}"
+    m = parse_mat(answers[0])
+    if not _exact_eq(obs["matrix"], m) and not (not m and not obs["matrix"]):
+        return f"asm: impl {obs['matrix']} model {answers[0]}"
+    if not _exact_eq(obs["matvec"], m) or not _exact_eq(obs["rmatvec"], m):
+        return f"operator on the basis differs from the model matrix {answers[0]}"
+    for key, ans in (("opv", answers[1]), ("opr", answers[2])):
+        want = [] if ans == "[]" else [Fraction(v) for v in ans.split(",")]
+        got = obs[key]
+        if len(got) != len(want) or any(not (math.isfinite(g) and F(g) == w) for g, w in zip(got, want)):
+            return f"{key}: impl {got} model {ans}"
+    return None
+
+
+# --------------------------------------------------------------------------- run
+
+
+def load_corpus() -> list[dict[str, Any]]:
+    d = common.CORPUS_DIR / PID
+    out = []
+    if d.is_dir():
+        for p in sorted(d.glob("*.json")):
+            out.append(json.loads(p.read_text())["case"])
+    return out
+
+
+def _td_model_diff(system, step, obs, model_ans) -> str | None:
+    m = parse_td(model_ans)
+    if m is None:
+        return None if "exc" in obs else f"model answered {model_ans[:60]} but the implementation returned derivatives"
+    if "exc" in obs:
+        return f"implementation raised {obs['exc']} ({obs.get('msg', '')[:120]}), model returned derivatives"
+    for f in step["functions"]:
+        for x in step["variables"]:
+            got, want = obs["jac"].get((f, x)), m.get((f, x))
+            if want is None or got is None or len(got) != len(want) or any(len(a) != len(b) for a, b in zip(got, want)):
+                return f"d{f}/d{x}: shapes differ (impl {got}, model {want})"
+            for ra, rb in zip(got, want):
+                for a, b in zip(ra, rb):
+                    if not close(a, b):
+                        return f"d{f}/d{x}: impl {a!r} model {b}"
+    return None
+
+
+def check_cases(res: Result, cases: list[dict[str, Any]], use_lean: bool, in_scope_stream: bool = True) -> None:
+    lines, index = [], []
+    if use_lean:
+        for ci, case in enumerate(cases):
+            for si, st in enumerate(case["steps"]):
+                index.append((ci, si))
+                lines.append(td_line(case["system"], st))
+        answers = common.run_lean_driver(PID, lines) if lines else []
+    model = dict(zip(index, answers)) if use_lean else {}
+    for ci, case in enumerate(cases):
+        system = case["system"]
+        exact = exact_total(system)
+        observations = None
+        failures = case_failures(case, exact)
+        observations = run_case(case) if use_lean else None
+        res.evaluations += len(case["steps"])
+        res.count(f"path={case['path']}")
+        res.count(f"n_disc={len(system['discs'])}")
+        if all_states(system):
+            res.count("with-states")
+        for st in case["steps"]:
+            cfg = step_cfg(case, st)
+            res.count(f"mode={st['mode']}->{resolved_mode(system, st, cfg)}")
+            res.count(f"matrix_type={st['matrix_type']}{'+lu' if st['lu'] else ''}")
+            res.count(f"solver={st['solver']}")
+            nf = sum(system["sizes"][f] for f in st["functions"])
+            nv = sum(system["sizes"][v] for v in st["variables"])
+            res.count("shape=" + ("square" if nf == nv else "rect"))
+            res.nontrivial(json.dumps([system["sizes"], st["functions"], st["variables"], st["mode"], st["matrix_type"], st["lu"]], sort_keys=True))
+        res.sample({"path": case["path"], "sizes": system["sizes"], "steps": case["steps"][:1]})
+        real = [(k, key, msg) for k, key, msg in failures if not key.startswith("probe:")]
+        for k, key, msg in failures:
+            if key.startswith("probe:"):
+                res.count(key)
+        if not in_scope_stream:
+            for k, key, msg in real:
+                res.count("probe:" + key.split(":")[0])
+            continue
+        for k, key, msg in real:
+            small = shrink_case(case, key)
+            fl = [(kk, m2) for _, kk, m2 in case_failures(small) if kk == key]
+            res.violate(
+                "oracle", key, (fl[0][1] if fl else msg),
+                {"case": small, "failing_step": len(small["steps"]) - 1, "bound": "2^-30 * max(1,|exact|)"},
+            )
+        if use_lean:
+            for si, st in enumerate(case["steps"]):
+                if st["solver"] in LANCZOS and "exc" in observations[si]:
+                    continue
+                diff = _td_model_diff(system, st, observations[si], model[(ci, si)])
+                if diff is None:
+                    res.traces_validated += 1
+                    continue
+                res.disagreements += 1
+                if real:
+                    continue  # the oracle already exhibits a failing input for this case
+                found = search_failing_input(res, case)
+                if not found:
+                    res.violate(
+                        "correspondence", "model-vs-impl:total-derivatives",
+                        "total derivatives of the implementation differ from the Lean model: " + diff,
+                        {"case": case, "step": si, "protocol_line": td_line(system, st), "model": model[(ci, si)],
+                         "impl": {f"{f}:{x}": v for (f, x), v in observations[si].get("jac", {}).items()} or observations[si],
+                         "correspondence": "Driver/C07.lean `td`"},
+                    )
+
+
+def neighbours(case):
+    """Neighbours of a case for the failing-input search."""
+    for st_i in range(len(case["steps"])):
+        for mode in MODES:
+            for mt in MTYPES:
+                c = copy.deepcopy(case)
+                c["steps"][st_i].update(mode=mode, matrix_type=mt, lu=False)
+                yield c
+        c = copy.deepcopy(case)
+        c["steps"][st_i].update(matrix_type="matrix", lu=True)
+        yield c
+        c = copy.deepcopy(case)
+        c["steps"] = [c["steps"][st_i]]
+        yield c
+        c = copy.deepcopy(case)
+        c["steps"][st_i]["functions"] = list(reversed(c["steps"][st_i]["functions"]))
+        c["steps"][st_i]["variables"] = list(reversed(c["steps"][st_i]["variables"]))
+        yield c
+    if len(case["steps"]) > 1:
+        c = copy.deepcopy(case)
+        c["steps"] = list(reversed(c["steps"]))
+        yield c
+    for kind in ("dense", "sparse", "operator"):
+        c = copy.deepcopy(case)
+        c["kinds"] = [kind] * len(c["kinds"])
+        yield c
+    for path in ("assembly", "MDAJacobi", "MDAGaussSeidel", "MDAChain"):
+        if path != case["path"]:
+            c = copy.deepcopy(case)
+            c["path"] = path
+            yield c
+
+
+def search_failing_input(res: Result, case) -> bool:
+    for nb in neighbours(case):
+        if not _valid_case(nb):
+            continue
+        try:
+            fl = [(k, key, msg) for k, key, msg in case_failures(nb) if not key.startswith("probe:")]
+        except Exception:  # noqa: BLE001
+            continue
+        if fl:
+            k, key, msg = fl[0]
+            small = shrink_case(nb, key)
+            res.violate("oracle", key, msg, {"case": small, "failing_step": len(small["steps"]) - 1})
+            return True
+    return False
+
+
+def check_asm(res: Result, items: list[tuple[dict, list[str], dict]], use_lean: bool) -> None:
+    lines = []
+    if use_lean:
+        for system, kinds, a in items:
+            lines += asm_lines(system, a)
+        answers = common.run_lean_driver(PID, lines) if lines else []
+    for n, (system, kinds, a) in enumerate(items):
+        res.evaluations += 1
+        res.count("asm:" + ("residual" if a["is_residual"] else "plain"))
+        diag = a["is_residual"] and any(f in a["variables"] for f in a["functions"])
+        if diag:
+            res.count("asm:with-diagonal-block")
+        res.nontrivial(json.dumps([system["sizes"], a["functions"], a["variables"], a["is_residual"]], sort_keys=True))
+        obs = run_asm(system, kinds, a)
+        bad = asm_oracle(system, a, obs)
+        for key, msg in bad:
+            res.violate("oracle", key, msg[:500], {"asm": a, "system": system, "kinds": kinds})
+        if use_lean:
+            diff = asm_model_diff(a, obs, answers[3 * n : 3 * n + 3])
+            if diff is None:
+                res.traces_validated += 1
+            else:
+                res.disagreements += 1
+                if not bad:
+                    res.violate(
+                        "correspondence", "model-vs-impl:assemble",
+                        "assemble_jacobian differs from the Lean model: " + diff[:400],
+                        {"asm": a, "system": system, "kinds": kinds, "protocol_lines": asm_lines(system, a),
+                         "model": answers[3 * n : 3 * n + 3], "correspondence": "Driver/C07.lean `asm/opv/opr`"},
+                    )
+
+
+def run(ctx) -> Result:
+    res = Result(PID)
+    res.rule = (
+        "random linear coupled systems (2-4 coupled disciplines + optional pre/post disciplines, sizes 1-3, strong/"
+        "weak/self couplings, optional residual/state pair), random ordered input/output subsets, every (mode, "
+        "matrix_type, use_lu_fact, linear_solver), through MDA*.linearize and successive JacobianAssembly."
+        "total_derivatives calls; every evaluated request is non-trivial (a coupled solve is involved); distinct by "
+        "(sizes, request, mode, matrix_type, lu); plus exact assemble_jacobian requests (matrix and operator)"
+    )
+    res.assumptions = [
+        "systems are linear with dyadic coefficients and a fixed-point map of max-norm <= 1/2 (well-conditioned residual Jacobian)",
+        "rounded stream: |impl - exact| <= 2^-30 * max(1, |exact|) per entry (iterative solvers, rtol 1e-12)",
+        "requests are connected: every requested function depends on a requested variable at the level of the discipline graph and conversely (the code raises on purpose otherwise)",
+        "BICG/BICGSTAB/CGS/TFQMR: a SciPy break-down (RuntimeError) is counted, not judged; an inaccurate result is a violation only if GMRES reproduces it",
+        "CG is excluded (needs a symmetric positive definite matrix, the residual Jacobian is not)",
+    ]
+    use_lean = ctx.audit is not None or os.environ.get("C07_FORCE_LEAN") == "1"
+    rng = ctx.rng
+    corpus = load_corpus()
+    check_cases(res, [c for c in corpus if "steps" in c], use_lean)
+    res.count("corpus", len(corpus))
+    n_sys = 600 if ctx.thorough else 70
+    import time
+
+    cases, asm_items = [], []
+    for _ in range(n_sys):
+        system = gen_system(rng)
+        if not in_scope(system) or exact_total(system) is None:
+            res.count("generator-rejected")
+            continue
+        # harness self-check: the closed form of the property text equals the derivative of the solution
+        outs, xs = candidate_outputs(system), design_inputs(system)
+        cf = closed_form(system, outs, xs)
+        ex = exact_total(system)
+        if cf is None or any(cf[k] != ex[k] for k in cf):
+            raise RuntimeError("harness oracles disagree (closed form vs derivative of the solution)")
+        for _ in range(3):
+            cases.append(gen_case(rng, system))
+        for _ in range(2):
+            asm_items.append((system, gen_config(rng, system)["kinds"], gen_asm(rng, system)))
+    cases = [c for c in cases if c["steps"]]
+    batch = 40
+    for i in range(0, len(cases), batch):
+        if time.time() > ctx.deadline:
+            res.notes.append(f"deadline reached after {i} cases")
+            break
+        check_cases(res, cases[i : i + batch], use_lean)
+    check_asm(res, asm_items, use_lean)
+    return res
+
+
+def replay(path: str) -> int:
+    data = json.loads(open(path).read())
+    rp = data["replay"]
+    if "case" in rp and "steps" in rp["case"]:
+        case = rp["case"]
+        fl = case_failures(case)
+        obs = run_case(case)
+        exact = exact_total(case["system"])
+        for k, st in enumerate(case["steps"]):
+            print(f"step {k}: {st}")
+            print("  impl :", obs[k].get("jac", obs[k]))
+            print("  exact:", {f"{f}:{x}": [[str(v) for v in r] for r in exact[(f, x)]] for f in st["functions"] for x in st["variables"]})
+        try:
+            print("  model:", common.run_lean_driver(PID, [td_line(case["system"], st) for st in case["steps"]]))
+        except Exception as e:  # noqa: BLE001
+            print("  model: (driver unavailable)", e)
+        bad = [(k, key, msg) for k, key, msg in fl if not key.startswith("probe:")]
+        for k, key, msg in bad:
+            print("ORACLE FAILS:", k, key, msg)
+        return 1 if bad else 0
+    if "asm" in rp:
+        obs = run_asm(rp["system"], rp["kinds"], rp["asm"])
+        bad = asm_oracle(rp["system"], rp["asm"], obs)
+        print("impl:", obs)
+        for key, msg in bad:
+            print("ORACLE FAILS:", key, msg)
+        return 1 if bad else 0
+    print(json.dumps(rp, indent=1)[:3000])
+    return 1
